@@ -1,10 +1,761 @@
-//! (world under construction)
-use crate::{report::{Stats, Violation}, supervisor::Finding};
+//! DIFF world: the real Stdfs on a private tmpfs sandbox and the real Memfs are fed the same
+//! calls. Pre-states are materialised on disk with std::fs only (and in Memfs through its API),
+//! an independent std::fs observer reads the sandbox back, and every call must give the same
+//! success-or-failure, the same returned value and the same tree on both sides (C02).
+//! Operations and trees live in a virtual namespace rooted at "/" that is mapped onto the sandbox
+//! directory at execution time, so recorded cases do not depend on where the sandbox is.
+use std::os::unix::fs::PermissionsExt;
 
-pub fn run_index(_id: &str, _tier: &str, _seed: u64, _idx: u64, _stats: &mut Stats, _known: &dyn Fn(&Violation) -> bool) -> Option<Finding> {
-    None
+use rivia::prelude::*;
+use serde::{Deserialize, Serialize};
+use serde_json::json;
+
+use crate::{
+    exec::{self, Handles},
+    gen::{cat, Gen, Profile, QUERIES},
+    hooks::{self, Knobs},
+    model::{Expect, Model, Next, K},
+    ops::*,
+    prng::{hash_bytes, hash_str, mix, Rng},
+    refpath::Env,
+    report::{Stats, Violation},
+    seq,
+    supervisor::{pick_knobs, Finding},
+    tree::{self, is_under, Cmp, Kind, Node, Tree},
+};
+
+#[derive(Clone, Debug, Serialize, Deserialize)]
+pub struct DiffCase {
+    pub format: u32,
+    pub property: String,
+    pub world: String,
+    pub seed: u64,
+    pub run: u64,
+    pub knobs: Knobs,
+    /// virtual environment (HOME etc. as virtual paths)
+    pub env: Env,
+    /// virtual pre-state tree, materialised on disk with std::fs before the calls
+    pub tree: Tree,
+    pub ops: Vec<Op>,
+    pub expect: Option<seq::ExpectSig>,
+    pub log_hash: String,
+    #[serde(default)]
+    pub what: String,
 }
 
-pub fn replay(_case: &serde_json::Value) -> Result<(Option<Violation>, String), String> {
-    Err("world not implemented".into())
+pub struct Sandbox {
+    pub base: String,
+    pub root: String,
+}
+
+impl Sandbox {
+    pub fn new() -> Sandbox {
+        let shm = if std::path::Path::new("/dev/shm").is_dir() { "/dev/shm".to_string() } else { std::env::temp_dir().to_string_lossy().into_owned() };
+        let base = format!("{}/rvsim-{}", shm, std::process::id());
+        Sandbox { root: format!("{}/sb", base), base }
+    }
+    fn force_writable(p: &std::path::Path) {
+        if let Ok(meta) = std::fs::symlink_metadata(p) {
+            if meta.is_dir() {
+                let _ = std::fs::set_permissions(p, std::fs::Permissions::from_mode(0o700));
+                if let Ok(rd) = std::fs::read_dir(p) {
+                    for e in rd.flatten() {
+                        Sandbox::force_writable(&e.path());
+                    }
+                }
+            }
+        }
+    }
+    pub fn fresh(&self) -> std::io::Result<()> {
+        let _ = std::env::set_current_dir("/");
+        if std::path::Path::new(&self.base).exists() {
+            Sandbox::force_writable(std::path::Path::new(&self.base));
+            std::fs::remove_dir_all(&self.base)?;
+        }
+        std::fs::create_dir_all(&self.root)?;
+        std::fs::set_permissions(&self.root, std::fs::Permissions::from_mode(0o755))?;
+        Ok(())
+    }
+    pub fn cleanup(&self) {
+        let _ = std::env::set_current_dir("/");
+        Sandbox::force_writable(std::path::Path::new(&self.base));
+        let _ = std::fs::remove_dir_all(&self.base);
+    }
+    /// virtual absolute path -> real path
+    pub fn real(&self, v: &str) -> String {
+        if v == "/" {
+            self.root.clone()
+        } else {
+            format!("{}{}", self.root, v)
+        }
+    }
+    /// real path -> virtual path (None when outside the sandbox)
+    pub fn virt(&self, r: &str) -> Option<String> {
+        if r == self.root {
+            Some("/".into())
+        } else if is_under(r, &self.root) {
+            Some(r[self.root.len()..].to_string())
+        } else {
+            None
+        }
+    }
+    fn map_arg(&self, a: &str) -> String {
+        if a.starts_with('/') {
+            // keep unclean spellings: only the prefix is added
+            format!("{}{}", self.root, a)
+        } else if let Some(i) = a.find("://") {
+            let (proto, rest) = a.split_at(i + 3);
+            if rest.starts_with('/') {
+                format!("{}{}{}", proto, self.root, rest)
+            } else {
+                a.to_string()
+            }
+        } else {
+            a.to_string()
+        }
+    }
+    pub fn map_op(&self, op: &Op) -> Op {
+        let mut c = op.clone();
+        for p in c.paths_mut() {
+            *p = self.map_arg(p);
+        }
+        c
+    }
+    pub fn map_env(&self, env: &Env) -> Env {
+        env.iter().map(|(k, v)| (k.clone(), if v.starts_with('/') { self.real(v) } else { v.clone() })).collect()
+    }
+    /// map a real tree (disk observer / Memfs snapshot) to virtual paths, dropping anything outside
+    pub fn virt_tree(&self, t: &Tree) -> Tree {
+        let mut nodes = std::collections::BTreeMap::new();
+        for (k, n) in &t.nodes {
+            if let Some(v) = self.virt(k) {
+                let mut n = n.clone();
+                if let Some(tg) = &n.target {
+                    n.target = Some(self.virt(tg).unwrap_or_else(|| format!("<outside>{}", tg)));
+                }
+                nodes.insert(v, n);
+            }
+        }
+        Tree { cwd: self.virt(&t.cwd).unwrap_or_else(|| t.cwd.clone()), nodes }
+    }
+}
+
+fn profile() -> Profile {
+    Profile {
+        name: "backend-differential",
+        weights: cat(&[
+            &[
+                ("mkdir_p", 8),
+                ("mkdir_m", 4),
+                ("mkfile", 6),
+                ("mkfile_m", 3),
+                ("write_all", 7),
+                ("append_all", 5),
+                ("append_line", 2),
+                ("append_lines", 2),
+                ("write_lines", 2),
+                ("remove", 7),
+                ("remove_all", 5),
+                ("move_p", 8),
+                ("copy", 7),
+                ("copy_b", 4),
+                ("symlink", 7),
+                ("set_cwd", 3),
+                ("chmod", 3),
+                ("chmod_b", 4),
+            ],
+            QUERIES,
+        ]),
+        spelling: 1,
+        hostile: 0,
+        swarm_drop: 20,
+        max_len: 10,
+        big_data: false,
+    }
+}
+
+/// modes in the DIFF world keep owner access so that the verdict does not depend on the uid
+fn safe_mode(m: u32, dir: bool) -> u32 {
+    (m & 0o777) | if dir { 0o700 } else { 0o600 }
+}
+
+fn sanitize(op: &mut Op) {
+    match op {
+        Op::MkdirM { mode, .. } => *mode = safe_mode(*mode, true),
+        Op::MkfileM { mode, .. } => *mode = safe_mode(*mode, false),
+        Op::Chmod { mode, .. } => *mode = safe_mode(*mode, true),
+        Op::ChmodB { calls, .. } => {
+            for c in calls.iter_mut() {
+                match c {
+                    ChmodCall::All(m) | ChmodCall::Dirs(m) => *m = safe_mode(*m, true),
+                    ChmodCall::Files(m) => *m = safe_mode(*m, false),
+                    ChmodCall::Sym(s) => {
+                        // no expression may take owner access away
+                        if s.contains('-') || s.contains('=') {
+                            *s = s.replace('-', "+").replace('=', "+");
+                        }
+                    },
+                    ChmodCall::Readonly => *c = ChmodCall::Sym("f:a+r".into()),
+                    _ => {},
+                }
+            }
+        },
+        Op::CopyB { calls, .. } => {
+            for c in calls.iter_mut() {
+                match c {
+                    CopyCall::ChmodAll(m) | CopyCall::ChmodDirs(m) => *m = safe_mode(*m, true),
+                    CopyCall::ChmodFiles(m) => *m = safe_mode(*m, false),
+                    _ => {},
+                }
+            }
+        },
+        _ => {},
+    }
+}
+
+/// Every link resolves to an existing non-link entry (the stated domain of C02)
+fn in_domain(m: &Model) -> bool {
+    m.t.nodes.values().all(|n| match (&n.kind, &n.target) {
+        // ... and records the kind its target has now: a disk has no "kind at creation", so a
+        // state in which Memfs remembers a different kind has no counterpart on disk
+        (Kind::Link, Some(t)) => matches!(m.k(t), K::Dir | K::File) && n.link_dir == (m.k(t) == K::Dir),
+        _ => true,
+    })
+}
+
+/// Operation stays inside what the DIFF world may do to a real filesystem
+fn admissible(m: &Model, op: &Op) -> bool {
+    let mut abs = vec![];
+    for p in op.paths() {
+        match m.abs(&p) {
+            Ok(a) => {
+                if m.through_link(&a) {
+                    return false;
+                }
+                abs.push(a);
+            },
+            Err(_) => return false,
+        }
+    }
+    if let Op::Symlink { l, t } = op {
+        // the target is judged after joining it onto the link's directory
+        if let Ok(la) = m.abs(l) {
+            let lp = tree::parent(&la).unwrap_or_else(|| "/".into());
+            let joined = if t.starts_with('/') { t.clone() } else { crate::refpath::mash(&lp, t) };
+            match m.abs(&joined) {
+                Ok(ta) => {
+                    if m.through_link(&ta) {
+                        return false;
+                    }
+                },
+                Err(_) => return false,
+            }
+        }
+    }
+    let cwd = m.t.cwd.clone();
+    match op {
+        // never pull the process cwd (or the sandbox root) out from under the real backend
+        Op::Remove { .. } | Op::RemoveAll { .. } => !abs.iter().any(|a| is_under(&cwd, a)),
+        Op::MoveP { .. } => {
+            // neither the source nor a destination that gets replaced may hold the process cwd
+            let into = m.k(&abs[1]) == K::Dir;
+            let eff = if into { tree::join(&abs[1], tree::base(&abs[0])) } else { abs[1].clone() };
+            !is_under(&cwd, &abs[0]) && abs[0] != "/" && !is_under(&cwd, &eff)
+        },
+        Op::Copy { .. } | Op::CopyB { .. } => abs[0] != "/",
+        _ => true,
+    }
+}
+
+fn materialise_disk(sb: &Sandbox, t: &Tree) -> std::io::Result<()> {
+    // parents sort before children
+    for (k, n) in &t.nodes {
+        if k == "/" {
+            continue;
+        }
+        let p = sb.real(k);
+        match n.kind {
+            Kind::Dir => std::fs::create_dir(&p)?,
+            Kind::File => std::fs::write(&p, &n.data.clone().unwrap_or_default().0)?,
+            Kind::Link => std::os::unix::fs::symlink(n.rel.clone().unwrap_or_default(), &p)?,
+        }
+    }
+    // permissions last (a restrictive parent must not block creating its children)
+    for (k, n) in t.nodes.iter().rev() {
+        if k == "/" || n.kind == Kind::Link {
+            continue;
+        }
+        std::fs::set_permissions(sb.real(k), std::fs::Permissions::from_mode(n.mode & 0o7777))?;
+    }
+    Ok(())
+}
+
+fn materialise_mem(sb: &Sandbox, fs: &Memfs, t: &Tree) -> Result<(), String> {
+    fs.mkdir_p(&sb.root).map_err(|e| e.to_string())?;
+    // links last, so that each records the kind its target really has
+    let order = t.nodes.iter().filter(|(_, n)| n.kind != Kind::Link).chain(t.nodes.iter().filter(|(_, n)| n.kind == Kind::Link));
+    for (k, n) in order {
+        if k == "/" {
+            continue;
+        }
+        let p = sb.real(k);
+        match n.kind {
+            Kind::Dir => {
+                fs.mkdir_m(&p, n.mode & 0o7777).map_err(|e| e.to_string())?;
+            },
+            Kind::File => {
+                fs.write_all(&p, &n.data.clone().unwrap_or_default().0).map_err(|e| e.to_string())?;
+                fs.chmod(&p, n.mode & 0o7777).map_err(|e| e.to_string())?;
+            },
+            Kind::Link => {
+                fs.symlink(&p, sb.real(&n.target.clone().unwrap_or_default())).map_err(|e| e.to_string())?;
+            },
+        }
+    }
+    fs.set_cwd(sb.real(&t.cwd)).map_err(|e| e.to_string())?;
+    Ok(())
+}
+
+pub const CMP: Cmp = Cmp { modes: true, owners: false, data: true, targets: false, rel: true, link_kind: false, cwd: false, perm_only: true };
+
+fn mem_tree(sb: &Sandbox, fs: &Memfs) -> Tree {
+    let mut t = sb.virt_tree(&tree::tree_of(&fs.verif_snapshot()));
+    // link permission bits are not observable on Linux in a meaningful way
+    for n in t.nodes.values_mut() {
+        if n.kind == Kind::Link {
+            n.mode = 0o120777;
+        }
+    }
+    t
+}
+
+fn disk_tree(sb: &Sandbox) -> Result<Tree, String> {
+    let mut t = sb.virt_tree(&tree::observe_disk(&sb.root).map_err(|e| format!("observer: {}", e))?);
+    for n in t.nodes.values_mut() {
+        if n.kind == Kind::Link {
+            n.mode = 0o120777;
+        }
+    }
+    t.cwd = std::env::current_dir().ok().and_then(|c| sb.virt(&c.to_string_lossy())).unwrap_or_else(|| "<outside>".into());
+    Ok(t)
+}
+
+/// The mode an Entry reports for a link is the link's own on Memfs and the target's on Stdfs; the
+/// documentation does not say which (DESIGN Appendix E), so it is not compared across backends
+fn link_neutral(v: &EntryView) -> EntryView {
+    let mut v = v.clone();
+    if v.link {
+        v.mode = 0;
+        v.exec = false;
+        v.readonly = false;
+    }
+    v
+}
+
+fn normalise(o: &Outcome) -> Outcome {
+    match o {
+        // which error is reported is not part of the interchangeability statement
+        Outcome::Err(_) => Outcome::Err("any".into()),
+        Outcome::Ok(Val::Entry(v)) => Outcome::Ok(Val::Entry(link_neutral(v))),
+        Outcome::Ok(Val::EntryF(a, b, c)) => Outcome::Ok(Val::EntryF(link_neutral(a), link_neutral(b), link_neutral(c))),
+        // traversal order of unsorted listings is free (and C08's business when sorted): multiset
+        Outcome::Ok(Val::Entries(items, ended)) => {
+            let mut it: Vec<Result<EntryView, String>> = items.iter().map(|x| x.as_ref().map(link_neutral).map_err(|_| "any".to_string())).collect();
+            if it.iter().any(|x| x.is_err()) {
+                // where an unsorted traversal stops with an error depends on the enumeration
+                // order: only the fact that it did is compared
+                it = vec![Err("any".to_string())];
+            }
+            it.sort_by_key(|x| format!("{:?}", x));
+            Outcome::Ok(Val::Entries(it, *ended))
+        },
+        x => x.clone(),
+    }
+}
+
+pub enum Src<'a> {
+    Gen { gen: &'a mut Gen, rng: &'a mut Rng, len: usize },
+    Replay(&'a [Op]),
+}
+
+pub struct DiffOut {
+    pub ops: Vec<Op>,
+    pub violations: Vec<Violation>,
+    pub log_hash: u64,
+    pub harness_skip: Option<String>,
+}
+
+/// Values that are compared between the backends for this operation
+fn comparable(op: &Op) -> bool {
+    // owners: Memfs invents 1000:1000, the disk has the uid the harness runs as
+    !matches!(op, Op::Uid { .. } | Op::Gid { .. } | Op::Owner { .. } | Op::Chown { .. } | Op::ChownB { .. })
+}
+
+pub fn run_diff(sb: &Sandbox, knobs: &Knobs, venv: &Env, pre: &Tree, mut src: Src, stats: &mut Stats, known: &dyn Fn(&Violation) -> bool) -> DiffOut {
+    let mut out = DiffOut { ops: vec![], violations: vec![], log_hash: 0, harness_skip: None };
+    if let Err(e) = sb.fresh() {
+        out.harness_skip = Some(format!("sandbox: {}", e));
+        return out;
+    }
+    seq::set_env(&sb.map_env(venv));
+    let hk = hooks::install_seq(knobs);
+    let mem = Memfs::new();
+    let std_ = Stdfs::new();
+    let finish = |out: DiffOut| -> DiffOut {
+        hooks::uninstall();
+        let _ = std::env::set_current_dir("/");
+        out
+    };
+    // pre-state on both sides, verified equal by the observers before anything is compared
+    if let Err(e) = materialise_disk(sb, pre) {
+        out.harness_skip = Some(format!("materialise disk: {}", e));
+        return finish(out);
+    }
+    if let Err(e) = materialise_mem(sb, &mem, pre) {
+        out.harness_skip = Some(format!("materialise memfs: {}", e));
+        return finish(out);
+    }
+    if std::env::set_current_dir(sb.real(&pre.cwd)).is_err() {
+        out.harness_skip = Some("cwd".into());
+        return finish(out);
+    }
+    let d0 = match disk_tree(sb) {
+        Ok(t) => t,
+        Err(e) => {
+            out.harness_skip = Some(e);
+            return finish(out);
+        },
+    };
+    let m0 = mem_tree(sb, &mem);
+    if !tree::diff(&m0, &d0, CMP).is_empty() || !tree::diff(&m0, pre, CMP).is_empty() {
+        out.harness_skip = Some(format!("pre-states differ: {:?}", tree::diff(&m0, &d0, CMP).iter().take(3).collect::<Vec<_>>()));
+        return finish(out);
+    }
+    stats.runs += 1;
+    let mut m = Model::new(venv.clone());
+    m.t = m0.clone();
+    m.t.cwd = pre.cwd.clone();
+    let mut mhs = Handles::default();
+    let mut shs = Handles::default();
+    let total = match &src {
+        Src::Gen { len, .. } => *len,
+        Src::Replay(o) => o.len(),
+    };
+    let mut i = 0;
+    let mut attempts = 0;
+    while i < total {
+        if !in_domain(&m) {
+            stats.bump("runs_ended_leaving_the_domain");
+            break;
+        }
+        let vop = match &mut src {
+            Src::Gen { gen, rng, .. } => {
+                attempts += 1;
+                if attempts > total * 20 {
+                    break;
+                }
+                let mut op = gen.next_op(&m, rng);
+                sanitize(&mut op);
+                if !admissible(&m, &op) || !comparable(&op) {
+                    continue;
+                }
+                op
+            },
+            Src::Replay(o) => {
+                let op = o[i].clone();
+                if !admissible(&m, &op) {
+                    i += 1;
+                    continue;
+                }
+                op
+            },
+        };
+        i += 1;
+        let class = seq::op_class(&m, &vop);
+        let rop = sb.map_op(&vop);
+        if crate::TRACE.load(std::sync::atomic::Ordering::Relaxed) {
+            use std::io::Write;
+            println!("T {}", json!({"label": vop.label(), "op": vop}));
+            let _ = std::io::stdout().flush();
+        }
+        let mo = exec::exec(&mem, &mut mhs, &rop);
+        let so = exec::exec(&std_, &mut shs, &rop);
+        out.ops.push(vop.clone());
+        stats.steps += 1;
+        let step = out.ops.len() - 1;
+        let mut v: Option<Violation> = None;
+        let (mn, sn) = (normalise(&mo), normalise(&so));
+        if mo.class3() != so.class3() {
+            v = Some(Violation {
+                property: "C02".into(),
+                oracle: "backend-outcome".into(),
+                step,
+                sig: format!("diff-outcome|{}|{}|memfs={} stdfs={}", vop.label(), class, mo.class3(), so.class3()),
+                detail: format!("{:?}: Memfs {:?} but Stdfs {:?}", vop, mo, so),
+            });
+        } else if mn != sn && !(matches!(vop, Op::IsExec { .. } | Op::IsReadonly { .. }) && class.starts_with("link-")) {
+            v = Some(Violation {
+                property: "C02".into(),
+                oracle: "backend-value".into(),
+                step,
+                sig: format!("diff-value|{}|{}", vop.label(), class),
+                detail: format!("{:?}: Memfs {:?} but Stdfs {:?}", vop, mo, so),
+            });
+        }
+        let mt = mem_tree(sb, &mem);
+        let dt = match disk_tree(sb) {
+            Ok(t) => t,
+            Err(e) => {
+                out.harness_skip = Some(e);
+                break;
+            },
+        };
+        // a multi-entry call that failed on both sides may have stopped at different points
+        // (enumeration order is free): its partial effect is not compared and the run ends
+        let failed_multi = mo.is_err()
+            && so.is_err()
+            && matches!(vop, Op::Copy { .. } | Op::CopyB { .. } | Op::Chmod { .. } | Op::ChmodB { .. } | Op::RemoveAll { .. });
+        if failed_multi {
+            stats.bump("runs_ended_after_failed_multi_entry_call");
+            break;
+        }
+        if v.is_none() {
+            let mut ds = tree::diff(&mt, &dt, CMP);
+            let mcwd = mem.cwd().map(|c| exec::ps(&c)).unwrap_or_default();
+            let mcwd_v = sb.virt(&mcwd).unwrap_or(mcwd);
+            if mcwd_v != dt.cwd {
+                ds.push(tree::Delta { what: "cwd", path: mcwd_v.clone(), detail: format!("memfs cwd {} disk cwd {}", mcwd_v, dt.cwd) });
+            }
+            if !ds.is_empty() {
+                let mut kinds: Vec<&str> = ds.iter().map(|d| d.what).collect();
+                kinds.sort();
+                kinds.dedup();
+                v = Some(Violation {
+                    property: "C02".into(),
+                    oracle: "backend-state".into(),
+                    step,
+                    sig: format!("diff-state|{}|{}|{}|{}", vop.label(), class, mo.class3(), kinds.join("+")),
+                    detail: format!("{:?} ({} on both): memfs tree vs disk: {:?}", vop, mo.class3(), ds.iter().take(5).collect::<Vec<_>>()),
+                });
+            }
+        }
+        let triple = format!("{}|{}|{}/{}", vop.label(), class, mo.class3(), so.class3());
+        if m.t.nodes.len() <= 1 {
+            stats.trivial_triples.insert(triple);
+        } else {
+            stats.triples.insert(triple);
+        }
+        stats.shapes.insert(mt.shape_hash());
+        stats.bump(&format!("op.{}", vop.name()));
+        out.log_hash = hash_bytes(out.log_hash, format!("{:?}{:?}{:?}", vop, mn, sn).as_bytes());
+        out.log_hash = hash_bytes(out.log_hash, &mt.full_hash().to_le_bytes());
+        // the model follows Memfs (it only steers generation and the domain filter)
+        let pre_t = m.t.clone();
+        m.t = mt.clone();
+        m.t.cwd = sb.virt(&mem.cwd().map(|c| exec::ps(&c)).unwrap_or_default()).unwrap_or_else(|| "/".into());
+        m.after(&vop, &mo, &pre_t);
+        let _ = (Expect::Any, Next::Same);
+        if let Some(v) = v {
+            if known(&v) {
+                *stats.known_hits.entry(v.sig.clone()).or_insert(0) += 1;
+                stats.runs_ended_by_known += 1;
+            } else {
+                out.violations.push(v);
+            }
+            // the two sides have diverged: nothing after this step can be attributed
+            break;
+        }
+    }
+    mhs.clear();
+    shs.clear();
+    let _ = hk;
+    finish(out)
+}
+
+/// Random virtual pre-state built by applying creation calls to the reference model only
+fn random_tree(gen: &mut Gen, venv: &Env, rng: &mut Rng) -> Tree {
+    let mut m = Model::new(venv.clone());
+    let n = rng.weighted(&[2, 3, 4, 4, 4, 3, 3, 2, 2, 1, 1]);
+    let kinds = ["mkdir_p", "mkdir_p", "mkdir_m", "mkfile", "write_all", "write_all", "mkfile_m", "symlink"];
+    for _ in 0..n {
+        let k = *rng.pick(&kinds);
+        let mut op = gen.build(k, &m, rng);
+        sanitize(&mut op);
+        if !admissible(&m, &op) {
+            continue;
+        }
+        if let Some(a) = m.eval(&op).into_iter().find(|a| matches!(a.expect, Expect::Exact(Outcome::Ok(_)))) {
+            if let Next::State(t) = a.next {
+                let cwd = m.t.cwd.clone();
+                m.t = *t;
+                m.t.cwd = cwd;
+            }
+        }
+        if !in_domain(&m) {
+            // undo: the pre-state must be inside the stated domain
+            m = Model::new(venv.clone());
+        }
+    }
+    if rng.chance(1, 4) {
+        let dirs: Vec<String> = m.t.nodes.iter().filter(|(_, n)| n.kind == Kind::Dir).map(|(k, _)| k.clone()).collect();
+        m.t.cwd = rng.pick(&dirs).clone();
+    }
+    m.t
+}
+
+fn venv_of(names: &[String], rng: &mut Rng) -> Env {
+    let mut env = Env::new();
+    env.insert("HOME".into(), if rng.chance(1, 10) { "/".into() } else { format!("/{}", names[0]) });
+    env.insert("RV_A".into(), names[1 % names.len()].clone());
+    env.insert("RV_B".into(), format!("/{}/{}", names[0], names[1 % names.len()]));
+    env
+}
+
+thread_local! {
+    static SANDBOX: Sandbox = Sandbox::new();
+}
+
+pub fn drop_privileges_once() {
+    // a defect in the code under test must not be able to damage the machine: the DIFF world runs
+    // as an unprivileged user once its private sandbox exists
+    use std::sync::Once;
+    static ONCE: Once = Once::new();
+    ONCE.call_once(|| unsafe {
+        if libc::geteuid() == 0 && std::env::var("RVSIM_KEEP_ROOT").is_err() {
+            SANDBOX.with(|sb| {
+                let _ = std::fs::create_dir_all(&sb.base);
+                let c = std::ffi::CString::new(sb.base.clone()).unwrap();
+                libc::chown(c.as_ptr(), 65534, 65534);
+            });
+            libc::setgroups(0, std::ptr::null());
+            libc::setgid(65534);
+            libc::setuid(65534);
+        }
+    });
+}
+
+fn replay_case(c: &DiffCase, stats: &mut Stats) -> DiffOut {
+    drop_privileges_once();
+    SANDBOX.with(|sb| {
+        let o = run_diff(sb, &c.knobs, &c.env, &c.tree, Src::Replay(&c.ops), stats, &|_| false);
+        sb.cleanup();
+        o
+    })
+}
+
+fn minimise(mut case: DiffCase, sig: &str) -> DiffCase {
+    let still = |c: &DiffCase| -> Option<Violation> {
+        let mut st = Stats::default();
+        replay_case(c, &mut st).violations.into_iter().find(|v| v.sig == sig)
+    };
+    if still(&case).is_none() {
+        return case;
+    }
+    if let Some(e) = &case.expect {
+        case.ops.truncate(e.step + 1);
+    }
+    let mut budget = 120;
+    let mut i = 0;
+    while i + 1 < case.ops.len() && budget > 0 {
+        let mut c2 = case.clone();
+        c2.ops.remove(i);
+        budget -= 1;
+        if still(&c2).is_some() {
+            case = c2;
+        } else {
+            i += 1;
+        }
+    }
+    // drop pre-state entries, leaves first
+    let keys: Vec<String> = case.tree.nodes.keys().rev().cloned().collect();
+    for k in keys {
+        if k == "/" || budget == 0 {
+            continue;
+        }
+        if case.tree.nodes.keys().any(|o| o != &k && is_under(o, &k)) || case.tree.cwd == k {
+            continue;
+        }
+        let mut c2 = case.clone();
+        c2.tree.nodes.remove(&k);
+        budget -= 1;
+        if still(&c2).is_some() {
+            case = c2;
+        }
+    }
+    let mut c2 = case.clone();
+    c2.knobs = Knobs::default();
+    if still(&c2).is_some() {
+        case = c2;
+    }
+    if let Some(v) = still(&case) {
+        case.expect = Some(seq::ExpectSig { sig: v.sig.clone(), step: v.step });
+        case.what = v.detail;
+    }
+    case
+}
+
+pub fn run_index(id: &str, tier: &str, seed: u64, idx: u64, stats: &mut Stats, known: &dyn Fn(&Violation) -> bool) -> Option<Finding> {
+    drop_privileges_once();
+    let rs = mix(&[seed, hash_str(id), hash_str(tier), idx]);
+    let mut rng = Rng::new(rs);
+    let knobs = pick_knobs(&mut rng);
+    let mut gen = Gen::new(profile(), format!("{}", idx), &mut rng);
+    let venv = venv_of(&gen.names, &mut rng);
+    let pre = random_tree(&mut gen, &venv, &mut rng);
+    // (state, call) pairs dominate; the rest are short multi-step histories
+    let len = if rng.chance(3, 5) { 1 } else { rng.range(2, 10) };
+    let out = SANDBOX.with(|sb| {
+        let o = run_diff(sb, &knobs, &venv, &pre, Src::Gen { gen: &mut gen, rng: &mut rng, len }, stats, known);
+        sb.cleanup();
+        o
+    });
+    if let Some(why) = &out.harness_skip {
+        stats.bump("HARNESS.diff_run_skipped");
+        if stats.counters.get("HARNESS.diff_run_skipped").copied().unwrap_or(0) <= 3 {
+            eprintln!("note: DIFF run {} skipped: {}", idx, why);
+        }
+        return None;
+    }
+    stats.distinct_cases.insert(out.log_hash);
+    if len == 1 {
+        stats.bump("state_call_pairs");
+    } else {
+        stats.bump("multi_step_histories");
+    }
+    if stats.samples.len() < 3 && !out.ops.is_empty() {
+        stats.samples.push(json!({"run": idx, "pre_state": pre.nodes.keys().collect::<Vec<_>>(), "ops": out.ops}));
+    }
+    let v = out.violations.into_iter().next()?;
+    let case = DiffCase {
+        format: 1,
+        property: id.into(),
+        world: "DIFF".into(),
+        seed,
+        run: idx,
+        knobs,
+        env: venv,
+        tree: pre,
+        ops: out.ops,
+        expect: Some(seq::ExpectSig { sig: v.sig.clone(), step: v.step }),
+        log_hash: format!("{:016x}", out.log_hash),
+        what: v.detail.clone(),
+    };
+    let case = minimise(case, &v.sig);
+    let mut v = v;
+    v.detail = case.what.clone();
+    if let Some(e) = &case.expect {
+        v.step = e.step;
+    }
+    let _ = Node::dir(0);
+    Some(Finding { violation: v, case: serde_json::to_value(&case).unwrap() })
+}
+
+pub fn replay(case: &serde_json::Value) -> Result<(Option<Violation>, String), String> {
+    let c: DiffCase = serde_json::from_value(case.clone()).map_err(|e| e.to_string())?;
+    let mut st = Stats::default();
+    let out = replay_case(&c, &mut st);
+    if let Some(w) = out.harness_skip {
+        return Err(w);
+    }
+    Ok((out.violations.into_iter().next(), format!("{:016x}", out.log_hash)))
 }
